@@ -236,6 +236,13 @@ def run_client(pid, tier, rep, design_cfgs, asis, groups, nscen):
     rep.cov["distinct_nontrivial"] += len(nontrivial)
     rep.cov["scenarios_accepted"] = accepted
     rep.cov["scenarios_driven_by_tlc_generated_scripts"] = nscripts
+    rep.cov["drivers"] = ("three sources of scenarios per group, all recorded from the real client and validated against Trace_Client.tla: "
+                          "(1) a seeded random driver (starts / gives up operations, polls / unsubscribes / drops streams and lets go of ended "
+                          "ones, a peer answering what it has seen on the wire incl. foreign, repeated, boundary and other-typed ids, arrays, "
+                          "garbage; one fault; back-pressure on the transport); (2) environment scripts projected from TLC simulations of "
+                          "Client.tla (Gen_Client.tla); (3) for the group with max_concurrent_requests = 1, scripts found by TLC breadth-first "
+                          "search for named corners (Goals_Client.tla: lost drop then push, lagged, abandoned subscribe then accept, send fault "
+                          "on an unsubscribe, close then leave, duplicate subscription id, id reuse then dropping the ended handle)")
     rep.cov["scenarios_rejected_for_other_property"] = foreign
     rep.assumptions += ["quiescence probe: after 120 scheduler turns on the current_thread runtime with the in-memory transport (no timers) every task "
                         "of the client is parked; at `Quiet` the trace spec requires that the model has no enabled client step left",
